@@ -12,6 +12,7 @@ pub mod c10;
 pub mod c14;
 pub mod c15;
 pub mod c16;
+pub mod c17;
 pub mod c18;
 pub mod c19;
 pub mod c20;
@@ -34,6 +35,7 @@ pub fn run(session: &Session) -> i32 {
         "C14" => c14::run(session),
         "C15" => c15::run(session),
         "C16" => c16::run(session),
+        "C17" => c17::run(session),
         "C18" => c18::run(session),
         "C19" => c19::run(session),
         "C20" => c20::run(session),
@@ -62,6 +64,7 @@ pub fn replay(session: &Session, path: &Path) -> i32 {
         "C14" => crate::engine::replay(session, &c14::C14, path),
         "C15" => crate::engine::replay(session, &c15::C15, path),
         "C16" => crate::engine::replay(session, &c16::C16, path),
+        "C17" => crate::engine::replay(session, &c17::C17, path),
         "C18" => crate::engine::replay(session, &c18::C18, path),
         "C19" => crate::engine::replay(session, &c19::C19, path),
         "C20" => crate::engine::replay(session, &c20::C20, path),
